@@ -30,7 +30,10 @@ T(k, s, n, ts, fa) == [k |-> k, s |-> s, n |-> n, ts |-> ts, fa |-> fa]
 \*   af,at   : versions_as range (af > at means none), asty : the old type
 P(name)          == T("p", name, 0, <<>>, <<>>)
 FA(from, to, rm, df, ig, af, at, asty) ==
-    [from |-> from, to |-> to, rm |-> rm, df |-> df, ig |-> ig, af |-> af, at |-> at, asty |-> asty]
+    [from |-> from, to |-> to, rm |-> rm, df |-> df, ig |-> ig, af |-> af, at |-> at, asty |-> asty, ii |-> FALSE, ik |-> FALSE]
+\* ii : savefile_introspect_ignore, ik : savefile_introspect_key  (no effect on the wire format or the schema)
+WithII(a) == [a EXCEPT !.ii = TRUE]
+WithIK(a) == [a EXCEPT !.ik = TRUE]
 Plain == FA(0, INF, "no", "default", FALSE, 1, 0, P("unit"))
 
 Str              == T("str", "String", 0, <<>>, <<>>)
@@ -396,17 +399,23 @@ Dec(t, inp, pos, ver) ==
                  ELSE LET r == DecFields(t.ts[d + 1], 1, inp, g.pos, ver, <<>>, g.reads, 0) IN
                       IF ~r.ok THEN r ELSE R(TRUE, EV(d, r.v.vs), r.pos, "", r.reads)
       [] t.k = "lib" /\ t.s \in BitKinds ->
-            \* u64 number of bits, u64 (byte count | 2^63), raw storage bytes
+            \* u64 number of bits, u64 (byte count | 2^63), raw storage (whole 32-bit words).
+            \* Without bit 63: the old format, u64 byte count and that many bytes (MSB-first bits).
             LET a == ReadN(inp, pos, 8) IN
             IF ~a.ok THEN a ELSE
             LET b == ReadN(inp, a.pos, 8) IN
             IF ~b.ok THEN Fail(b.pos, b.err, a.reads \o b.reads)
-            ELSE IF b.v.bs[8] < 128 \/ ~LenSmall(<<b.v.bs[1], b.v.bs[2], b.v.bs[3], b.v.bs[4], b.v.bs[5], b.v.bs[6], b.v.bs[7], 0>>)
-                 THEN Fail(b.pos, "bitvec-old-or-huge", a.reads \o b.reads)
-            ELSE LET n == FromLE(SubSeq(b.v.bs, 1, 3))
-                     c == ReadN(inp, b.pos, n) IN
-                 IF ~c.ok THEN Fail(c.pos, c.err, a.reads \o b.reads \o c.reads)
-                 ELSE R(TRUE, L(<<a.v, b.v, c.v>>), c.pos, "", a.reads \o b.reads \o c.reads)
+            ELSE LET newfmt == b.v.bs[8] >= 128
+                     nb == [i \in 1..8 |-> IF i = 8 THEN b.v.bs[8] % 128 ELSE b.v.bs[i]] IN
+                 IF ~LenSmall(nb) THEN Fail(b.pos, "eof-or-alloc", a.reads \o b.reads)
+                 ELSE LET n == FromLE(SubSeq(nb, 1, 3))
+                          take == IF newfmt THEN 4 * (n \div 4) ELSE n
+                          c == ReadN(inp, b.pos, take) IN
+                      IF ~c.ok THEN Fail(c.pos, c.err, a.reads \o b.reads \o c.reads)
+                      \* more bits than the storage holds is not a value of the type
+                      ELSE IF newfmt /\ (~LenSmall(a.v.bs) \/ FromLE(SubSeq(a.v.bs, 1, 3)) > 8 * take)
+                           THEN Fail(c.pos, "bitvec-bits", a.reads \o b.reads \o c.reads)
+                      ELSE R(TRUE, L(<<a.v, b.v, c.v>>), c.pos, "", a.reads \o b.reads \o c.reads)
       [] t.k = "lib" /\ t.s \notin BitKinds ->
             LET r == Dec(LibEquiv(t.s), inp, pos, ver) IN
             IF ~r.ok THEN r
